@@ -55,7 +55,8 @@ def cases(draw, tier="quick"):
         c["text"] = draw(st.one_of(st.text(alphabet=st.characters(blacklist_categories=("Cs",)), min_size=1, max_size=40),
                                    st.sampled_from(["it's \"quoted\"\n\ttab", "üñí ☃ \x07", "back\\slash", "'", '"', "\\n"])))
     c["code"] = draw(st.sampled_from(["set", "alloc"]))
-    c["listen"] = draw(st.sampled_from([[True, True], [True, False], [False, True]]))
+    c["listen"] = draw(st.sampled_from([[True, True], [True, False], [False, True], [False, False]]))
+    c["relay"] = draw(st.booleans()) or c["listen"] == [False, False]
     c["fault"] = draw(st.sampled_from(["none", "none", "cut", "flip", "ack-cut", "ack-wrong", "ack-empty", "ack-null",
                                        "ack-nohash"]))
     c["fault_at"] = draw(st.one_of(st.integers(0, 200), st.integers(0, 40000), st.integers(0, 220000)))
@@ -115,6 +116,17 @@ def unwrap(p):
     return getattr(p, "_wrappedProtocol", p)
 
 
+def far_protocol(t):
+    """protocol at the far end of t's connection, looking through the transit relay"""
+    p = unwrap(t.peer.protocol)
+    if getattr(t.peer.owner, "name", "") == "relay":
+        buddy = getattr(p, "_buddy", None)
+        bt = getattr(getattr(buddy, "_client", None), "transport", None) if buddy is not None else None
+        far = getattr(bt, "peer", None)
+        return unwrap(far.protocol) if far is not None else None
+    return p
+
+
 def run_case(c):
     from wormhole.cli import cmd_send, cmd_receive
     from wormhole import transit
@@ -131,9 +143,10 @@ def run_case(c):
         os.mkdir(sd)
         os.mkdir(rd)
         sa, ra = cfg("send"), cfg("receive")
+        relay_url = W.start_relay() if c.get("relay") else ""
         for a, d in ((sa, sd), (ra, rd)):
             a.relay_url = "ws://sim:4000/v1"
-            a.transit_helper = ""
+            a.transit_helper = relay_url
             a.cwd = d
             a.stdout = io.StringIO()
             a.stderr = io.StringIO()
@@ -228,7 +241,7 @@ def run_case(c):
                 t = e[1]
                 arg = tape.choice([1, 100, 5000, None, None, None]) if not tape.exhausted() else None
                 k = len(t.outq) if arg is None else min(arg, len(t.outq))
-                ps, pr = unwrap(t.protocol), unwrap(t.peer.protocol)
+                ps, pr = unwrap(t.protocol), far_protocol(t)
                 both_records = getattr(ps, "state", None) == "records" and getattr(pr, "state", None) == "records" \
                     and isinstance(ps, transit.Connection)
                 if both_records and faulted[0] is None:
@@ -307,7 +320,7 @@ def run_case(c):
         big = (kind == "file" and c["size"] > 16384) or (kind == "dir" and nentries >= 2)
         res.nontrivial = big or faulted[0] is not None
         res.features = dict(kind=kind, fault=c["fault"], applied=faulted[0] or "-", code=c["code"],
-                            listen="%d%d" % tuple(c["listen"]), big=big, s_ok=s_ok, r_ok=r_ok)
+                            listen="%d%d" % tuple(c["listen"]), relay=bool(c.get("relay")), big=big, s_ok=s_ok, r_ok=r_ok)
         res.trace = ",".join(W.trace[:200])
         res.steps = W.steps
         res.sample = dict(case={k: v for k, v in c.items() if k != "tape"}, sender=_short(S), receiver=_short(R),
